@@ -196,9 +196,9 @@ package regexp2
 //@   requires[facts] FinderFacts(r.code, r.Runtext, r.Runtextstart)
 //@   modifies r.Runtextpos, r.rightToLeft, r.caseInsensitive
 //@   ensures[ltr] !r.code.RightToLeft ==> old(r.Runtextpos) <= r.Runtextpos && r.Runtextpos <= len(r.Runtext) &&
-//@              forall p int :: old(r.Runtextpos) <= p && (p < r.Runtextpos || (!ok && p == r.Runtextpos)) ==> !Att(r.code, r.Runtext, r.Runtextstart, p)
+//@              forall p int {mark(p), mark(p - old(r.Runtextpos)), mark(p + r.code.FindOptimizations.FixedDistanceLiteral.Distance)} {Att(r.code, r.Runtext, r.Runtextstart, p)} :: old(r.Runtextpos) <= p && (p < r.Runtextpos || (!ok && p == r.Runtextpos)) ==> !Att(r.code, r.Runtext, r.Runtextstart, p)
 //@   ensures[rtl] r.code.RightToLeft ==> 0 <= r.Runtextpos && r.Runtextpos <= old(r.Runtextpos) &&
-//@              forall p int :: p <= old(r.Runtextpos) && (p > r.Runtextpos || (!ok && p == r.Runtextpos)) ==> !Att(r.code, r.Runtext, r.Runtextstart, p)
+//@              forall p int {mark(p)} {Att(r.code, r.Runtext, r.Runtextstart, p)} :: p <= old(r.Runtextpos) && (p > r.Runtextpos || (!ok && p == r.Runtextpos)) ==> !Att(r.code, r.Runtext, r.Runtextstart, p)
 
 
 // First attempt position of a scan: one past the origin after an empty previous match.
